@@ -7,7 +7,7 @@ package main
 // (b) full product: entity kind {trip update, vehicle position} x is_assigned {-,false,true}
 //     x direction {-,N,E,S,W} x train id {-,x} x pre-existing vehicle descriptor {-,yes} x
 //     trip id {NYCT format, other} x per-stop tracks {no ext, scheduled, actual, both, neither}
-//     x first-stop times {none, dep <,=,> ts, arr only <,=,>, dep 0 with arr} x stop-time count
+//     x first-stop times {none, dep <,=,> ts, arr only <,=,>, dep 0 with arr, dep without time + arr >,< ts, events without any time} x stop-time count
 //     {0,1,2} x the 4 option combinations.
 // (c) transparency: feeds without NYCT data - route in {M, J, -} x two stop ids over a
 //     12-value alphabet x options, and the rich C02 feed within 1 deviation x options - parse
@@ -123,7 +123,7 @@ func genC16(c *Ctx) *c16Case {
 		return k
 	}
 	k.tracks = c.Free("tracks", 5)
-	k.firstTimes = c.Free("first_stop_times", 8)
+	k.firstTimes = c.Free("first_stop_times", 11)
 	k.nStops = c.Free("stop_time_updates", 3)
 	tu := &gtfsrt.TripUpdate{Trip: td, Vehicle: pre}
 	for j := 0; j < k.nStops; j++ {
@@ -146,6 +146,15 @@ func genC16(c *Ctx) *c16Case {
 			case 7:
 				u.Departure = &gtfsrt.TripUpdate_StopTimeEvent{Time: cp2(0)}
 				u.Arrival = &gtfsrt.TripUpdate_StopTimeEvent{Time: cp2(ts + 1)}
+			case 8: // a departure event without a time (delay only): the departure TIME is missing, so the arrival counts
+				u.Departure = &gtfsrt.TripUpdate_StopTimeEvent{Delay: cp(new(int32))}
+				u.Arrival = &gtfsrt.TripUpdate_StopTimeEvent{Time: cp2(ts + 1)}
+			case 9:
+				u.Departure = &gtfsrt.TripUpdate_StopTimeEvent{Delay: cp(new(int32))}
+				u.Arrival = &gtfsrt.TripUpdate_StopTimeEvent{Time: cp2(ts - 1)}
+			case 10: // events present, no time anywhere
+				u.Departure = &gtfsrt.TripUpdate_StopTimeEvent{Delay: cp(new(int32))}
+				u.Arrival = &gtfsrt.TripUpdate_StopTimeEvent{Uncertainty: cp(new(int32))}
 			}
 		} else {
 			u.Arrival = &gtfsrt.TripUpdate_StopTimeEvent{Time: cp2(int64(k.ts) - 500)} // later stops never matter
@@ -193,9 +202,9 @@ func c16Rules(c *Ctx) {
 	stale := false
 	if k.kind == 0 && unassigned {
 		switch {
-		case k.nStops == 0, k.firstTimes == 0:
+		case k.nStops == 0, k.firstTimes == 0, k.firstTimes == 10:
 			stale = true // first stop (time) missing
-		case k.firstTimes == 1, k.firstTimes == 4:
+		case k.firstTimes == 1, k.firstTimes == 4, k.firstTimes == 9:
 			stale = true // earlier than the feed timestamp
 		}
 	}
